@@ -262,9 +262,9 @@ class Pool():
                     self._depleted = True
                     return False, False, None
 
-            def get_next_idle_worker():
+            def get_next_idle_worker(exclude=()):
                 maybe_idle = set(wid for wid, workload in self._pending_per_worker.items() if not workload)
-                idle = maybe_idle.difference(self._closed)
+                idle = maybe_idle.difference(self._closed).difference(exclude)
                 if not idle:
                     return None
                 return self._workers[next(iter(idle))]
@@ -284,11 +284,15 @@ class Pool():
                 if worker_callback:
                     worker_callback(worker, 'died')
 
+                tried = set()
                 while self._retries:
-                    idle = get_next_idle_worker()
+                    idle = get_next_idle_worker(exclude=tried)
                     if idle is None:
                         break
 
+                    # offer the work to each idle worker at most once, otherwise a worker for which the user-provided
+                    # enqueue function keeps refusing the input would be asked again and again for ever
+                    tried.add(idle.id)
                     logger.debug('Found an idle worker: {}, trying to enqueue workload from previous failures worker to it', idle)
                     try_enqueue(idle)
 
